@@ -127,7 +127,7 @@ def load_known(path=None):
 # --------------------------------------------------------------------------
 
 def finish(prop_id, level, results, ctx, t0, technique, trusted_base,
-           assumptions, explanation, checker_cmd):
+           assumptions, explanation, checker_cmd, extra=None):
     """Write evidence, print verdict lines, return the exit code."""
     known, fixed = load_known()
     kn = known.get(prop_id, {})
@@ -158,6 +158,8 @@ def finish(prop_id, level, results, ctx, t0, technique, trusted_base,
         "exhaustive": True,
         "known_findings_listed": [v.key for v in listed],
     }
+    if extra:
+        cov.update(extra)
     ev = {
         "property_id": prop_id,
         "tier": ctx.tier,
